@@ -36,8 +36,28 @@ def make_zfield_item(rng, i):
     return {'kind': 'zfield', 'version': version, 'dt': dt, 'text': '^'.join(parts), 'ref': 'zfield', 'edits': [dt, version]}
 
 
+def make_zmulti_item(rng, i):
+    """a Z segment with two to four Z fields of *different* complex datatypes: it must be judged exactly
+    as its fields are judged alone (each is validated against the structure of its own datatype)"""
+    from models import tables as T
+    version = rng.choice(T.VERSIONS)
+    dts = [d for d in ZDTS if T.datatype_struct(version, d)]
+    rng.shuffle(dts)
+    fields = []
+    for k, dt in enumerate(dts[:rng.choice([2, 3, 4])]):
+        n = len(T.datatype_struct(version, dt))
+        parts = ['z%d%d%d' % (i, k, j) if rng.random() < 0.6 else '' for j in range(min(n, rng.choice([1, 2, 3, 5])))]
+        if not any(parts):
+            parts[-1] = 'z%d%d' % (i, k)
+        fields.append([dt, '^'.join(parts)])
+    return {'kind': 'zmulti', 'version': version, 'fields': fields, 'ref': 'zmulti', 'edits': [f[0] for f in fields] + [version]}
+
+
 def make_item(rng, i):
-    if rng.random() < 0.3:
+    r = rng.random()
+    if r < 0.15:
+        return make_zmulti_item(rng, i)
+    if r < 0.4:
         return make_zfield_item(rng, i)
     lines = (RSP_K21 % ('c%d' % i)).rstrip('\r').split('\r')
     edits = []
@@ -88,6 +108,23 @@ def _reports(arg):
                 out[idx] = [bool(r.is_valid), sorted(canon_text(str(x)) for x in r.errors),
                             sorted(canon_text(str(x)) for x in r.warnings)]
                 continue
+            if it.get('kind') == 'zmulti':
+                from hl7apy.core import Segment, Field
+
+                def zseg(which):
+                    seg = Segment('ZIN', version=it['version'], validation_level=2)
+                    for k, (dt, text) in enumerate(it['fields']):
+                        if which is None or which == k:
+                            fld = Field('ZIN_%d' % (k + 1), datatype=dt, version=it['version'], validation_level=2)
+                            fld.value = text
+                            seg.add(fld)
+                    r = seg.validate(return_errors=True)
+                    return [canon_text(str(x)) for x in r.errors], [canon_text(str(x)) for x in r.warnings], bool(r.is_valid)
+                whole = zseg(None)
+                alone = [zseg(k) for k in range(len(it['fields']))]
+                out[idx] = [whole[2], sorted(whole[0]), sorted(whole[1]),
+                            sorted(sum((a[0] for a in alone), [])), sorted(sum((a[1] for a in alone), []))]
+                continue
             if it['ref'] == 'mp':
                 m = parse_message(it['text'], message_profile=mp)
             elif it['ref'] == 'std_nogroups':
@@ -116,5 +153,13 @@ def execute(case):
                                'step': idx,
                                'detail': 'item %d (%s, edits %r): order %r -> %r ; order %r -> %r' % (
                                    idx, items[idx]['ref'], items[idx]['edits'], case['orders'][0], a, case['orders'][1], b)})
+            break
+    for idx, it in enumerate(items):
+        a = res[0].get(idx)
+        if it.get('kind') == 'zmulti' and isinstance(a, list) and (a[1] != a[3] or a[2] != a[4]):
+            violations.append({'monitor': 'C04.verdict',
+                               'signature': 'a Z segment holding several complex Z fields is judged differently from its fields alone',
+                               'step': idx, 'detail': 'version %s fields %r: together %r / %r, alone %r / %r' % (
+                                   it['version'], it['fields'], a[1][:4], a[2][:4], a[3][:4], a[4][:4])})
             break
     return res, violations
